@@ -564,7 +564,7 @@ def free_running_obs(task):
             except Exception as e:  # noqa
                 r, d = None, exc_digest(e)
             with lock:
-                log.steps.append({'thread': f't{i + 1}', 'what': 'return', 'call': names[i], 'tables': 'skipped', 'symbols': [], 'args_before': '',
+                log.steps.append({'thread': f't{i + 1}', 'what': 'return_untracked', 'call': names[i], 'tables': 'skipped', 'symbols': [], 'args_before': '',
                                   'args_after': '', 'result': d})
     ts = [threading.Thread(target=worker, args=(i,)) for i in range(len(names))]
     for t in ts:
@@ -738,7 +738,7 @@ def run_c15(rep, tier):
         rep.sample({'history': o['_what'], 'steps': len(o['steps']), 'first_steps': [{k: s[k] for k in ('thread', 'what', 'call', 'result')} for s in o['steps'][:3]],
                     'tlc_fails': fails})
         if fails:
-            bad = [s for s in o['steps'] if s['what'] in ('return', 'reencode') and s['result'] != o['ref'].get(s['call'])]
+            bad = [s for s in o['steps'] if s['what'] in ('return', 'return_untracked', 'reencode') and s['result'] != o['ref'].get(s['call'])]
             rep.violation({'kind': 'purity', 'module': 'props_purity', 'what': o['_what'], 'failing_clauses': fails, 'task': o.get('_task'),
                            'differing_steps': [{k: s[k] for k in ('thread', 'what', 'call', 'result')} for s in bad[:5]], 'ref': o['ref']},
                           f"{o['_what']}: fails {fails}")
